@@ -36,6 +36,9 @@ pub struct ElfSpec {
     /// the note segment / section announces this many bytes less than the notes take: the last note is cut off
     /// (a malformed image: readers have to stop at the note that does not parse)
     pub note_cut: usize,
+    /// physical addresses of the program headers: 0 = as the virtual ones (what linkers emit), 1 = zero, 2 = 1 MiB
+    /// above (load addresses from a linker script): readers must not use them
+    pub paddr_mode: u8,
     /// file offset at which the (first) loadable segment begins: 0 in ordinary images; when it is not, p_vaddr and
     /// p_offset both move by it and `p_vaddr - p_offset` stays the link base
     pub load_off: usize,
@@ -194,10 +197,12 @@ pub fn build(s: &ElfSpec) -> Built {
     // ---- program headers ------------------------------------------------------------------------
     let total_guess = off + nsh * shsize + s.tail;
     let ph = |w: &mut W, ty: u32, flags: u32, o: usize, sz: usize, al: u64| {
+        let vaddr = s.bias + o as u64;
+        let paddr = match s.paddr_mode { 1 => 0, 2 => vaddr + 0x10_0000, _ => vaddr };
         if w.is64 {
-            w.u32(ty); w.u32(flags); w.u64(o as u64); w.u64(s.bias + o as u64); w.u64(s.bias + o as u64); w.u64(sz as u64); w.u64(sz as u64); w.u64(al);
+            w.u32(ty); w.u32(flags); w.u64(o as u64); w.u64(vaddr); w.u64(paddr); w.u64(sz as u64); w.u64(sz as u64); w.u64(al);
         } else {
-            w.u32(ty); w.u32(o as u32); w.u32((s.bias + o as u64) as u32); w.u32((s.bias + o as u64) as u32); w.u32(sz as u32); w.u32(sz as u32); w.u32(flags); w.u32(al as u32);
+            w.u32(ty); w.u32(o as u32); w.u32(vaddr as u32); w.u32(paddr as u32); w.u32(sz as u32); w.u32(sz as u32); w.u32(flags); w.u32(al as u32);
         }
     };
     if s.has_phdrs {
@@ -323,6 +328,7 @@ pub fn gen_spec(r: &mut Rng) -> ElfSpec {
         has_sections,
         bias: *r.pick(&[0u64, 0, 0, 0, 0x1000, 0x400000, 0x10]),
         note_cut: 0,
+        paddr_mode: *Rng::new(r.0 ^ 0xc671_78f2_e372_532b).pick(&[0u8, 0, 0, 1, 2]),
         load_off: *Rng::new(r.0 ^ 0x9b05_688c_2b3e_6c1f).pick(&[0usize, 0, 0, 0x34, 0x40, 0xe8, 0x200]),
         text: r.bytes(tlen),
         last_name: r.below(3) as u8,
